@@ -468,7 +468,7 @@ class Gen(object):
             return [self.scalar('iiss') for _ in range(n)]
         if t == 'dict':
             if isinstance(rules.get('schema'), dict):
-                return self.document(rules['schema'], depth - 1)
+                return self.document(rules['schema'], depth - 1, unknown=rules.get('allow_unknown'))
             d = {}
             for k in self.some(SUBKEYS, 0, 3):
                 d[k] = self.value_for(rules.get('valuesrules'), depth - 1) if 'valuesrules' in rules else self.anyval(1)
@@ -482,7 +482,8 @@ class Gen(object):
             return self.scalar()
         return self.pick(xs) if xs else self.scalar()
 
-    def document(self, schema, depth=3, extra=0.25, missing=0.25):
+    def document(self, schema, depth=3, extra=0.25, missing=0.25, unknown=None):
+        """`unknown`: the rule set for unknown fields (allow_unknown given as a mapping), if any"""
         d = {}
         for f, rules in schema.items():
             if self.chance(missing) and not (isinstance(rules, dict) and rules.get('required')):
@@ -490,6 +491,11 @@ class Gen(object):
             if self.chance(0.05):
                 continue
             d[f] = self.value_for(rules, depth)
+        if isinstance(unknown, dict) and unknown and depth > 0 and self.chance(0.6):
+            # unknown fields that the rules for unknown fields have something to say about
+            for k in self.some(['u1', 'u2', 'zz'], 1, 2):
+                if k not in d:
+                    d[k] = self.value_for(unknown, depth - 1)
         if self.chance(extra):
             for k in self.some(FIELDS + ['zz', 'type'], 1, 2):
                 if k not in d:
